@@ -957,8 +957,8 @@ def get_input_string(
 
     return (
         safe(lambda: json.loads(inp))()
-        .map(DerivationTree.from_parse_tree)
-        .map(lambda tree: eassert(tree, graph().tree_is_valid(tree)))
+        .bind(safe(DerivationTree.from_parse_tree))
+        .bind(safe(lambda tree: eassert(tree, graph().tree_is_valid(tree))))
         .lash(lambda _: safe(lambda: solver().parse(inp, skip_check=True))())
     )
 
